@@ -228,7 +228,7 @@ Theorem walk_model_is_source_direct_step :
   g_torch_seg_len_1 start ln consumed half = Z.max 0 (Z.min (start + ln - consumed) half - start) /\
   g_torch_si_2 (g_torch_si_1 start half) = Z.max 0 (start - half) /\
   g_frame_consumed_1 consumed 3 = consumed + 3 /\ g_torch_consumed_0 consumed 3 = consumed + 3 /\
-  g_frame_test_0 consumed ln = (consumed <? ln) /\ g_torch_test_3 consumed ln = (consumed <? ln).
+  g_frame_test_0 consumed ln = (consumed <? ln) /\ g_torch_test_4 consumed ln = (consumed <? ln).
 Proof. exact walk_direct_step_tie. Qed.
 Print Assumptions walk_model_is_source_direct_step.
 
